@@ -148,46 +148,56 @@ func plumbIssues(rs *Resid, plugin string) []sideIssue {
 	for _, l := range chain {
 		binders = append(binders, fieldNames(l.Type.Params)...)
 	}
-	// expected argument lists
-	args0, ok0 := identNames(calls[0].Args)
-	if !ok0 || !eqStrings(args0, fparams) {
-		iss(calls[0], "arg-order", "calls %s with %v; its parameters, in order, are %v", fname, args0, fparams)
+	// positional plumbing: the call's arguments are the binders, each exactly once, in the order the transformation
+	// prescribes (binder names themselves are free; go/types then checks that each lands on its own parameter type)
+	var args []string
+	okArgs := true
+	for _, cl := range calls {
+		a, ok := identNames(cl.Args)
+		if !ok {
+			okArgs = false
+		}
+		args = append(args, a...)
 	}
-	want := append([]string{}, fparams...)
+	distinct := map[string]bool{}
+	for _, b := range binders {
+		if distinct[b] || b == "" || b == "_" {
+			iss(fn, "binder-names", "binds parameters %v: every parameter needs its own usable name to be forwarded", binders)
+			okArgs = false
+		}
+		distinct[b] = true
+	}
+	want := append([]string{}, binders...)
+	nInner := 0
 	if plugin == "uncurry" {
-		var innerParams []string
 		if ftype.Results != nil && len(ftype.Results.List) == 1 {
 			if it, ok := ftype.Results.List[0].Type.(*ast.FuncType); ok {
-				innerParams = fieldNames(it.Params)
+				nInner = len(fieldNames(it.Params))
 			}
 		}
 		if len(calls) != 2 {
 			iss(inner.List[0], "uncurry-shape", "does not call the returned function")
-		} else {
-			args1, ok1 := identNames(calls[1].Args)
-			if !ok1 || !eqStrings(args1, innerParams) {
-				iss(calls[1], "arg-order", "calls the returned function with %v; its parameters, in order, are %v", args1, innerParams)
-			}
+		} else if len(calls[0].Args) != len(fparams) || len(calls[1].Args) != nInner {
+			iss(inner.List[0], "arg-split", "splits the arguments %d|%d; the outer function takes %d and the returned one %d", len(calls[0].Args), len(calls[1].Args), len(fparams), nInner)
 		}
-		want = append(want, innerParams...)
 	} else if len(calls) != 1 {
 		iss(inner.List[0], "call-shape", "calls the result of %s again", fname)
 	}
-	// binder order per plugin
 	switch plugin {
-	case "curry", "uncurry":
-		// binders in order are exactly the parameters
 	case "flip":
 		if len(want) >= 2 {
 			want[0], want[1] = want[1], want[0]
 		}
 	case "apply":
 		if len(want) >= 1 {
-			want = append([]string{want[len(want)-1]}, want[:len(want)-1]...)
+			want = append(want[1:], want[0])
 		}
 	}
-	if !eqStrings(binders, want) {
-		iss(fn, "binder-order", "%s binds %v; it must bind %v (every parameter exactly once, in the transformed order)", plugin, binders, want)
+	if okArgs && !eqStrings(args, want) {
+		iss(calls[0], "arg-order", "%s forwards %v; with binders %v the original function must receive %v", plugin, args, binders, want)
+	}
+	if len(binders) != len(fparams)+nInner {
+		iss(fn, "binder-count", "%s binds %d parameters for a function with %d", plugin, len(binders), len(fparams)+nInner)
 	}
 	switch plugin {
 	case "curry":
